@@ -66,7 +66,22 @@ func runTrace(args []*Sexp) *Sexp {
 			pos := bc.FileSet.Position(parser.Pos(f.Base + off))
 			samples.List = append(samples.List, L(A(strconv.Itoa(off)), A(strconv.Itoa(pos.Line)), A(strconv.Itoa(pos.Column))))
 		}
-		files.List = append(files.List, L(hexAtom([]byte(f.Name)), A(strconv.Itoa(f.Base)), A(strconv.Itoa(f.Size)), lines, samples))
+		// file lookup of the implementation on the edges of this file's range
+		fileof := L(A("fileof"))
+		for _, p := range []int{f.Base, f.Base + f.Size/2, f.Base + f.Size, f.Base + f.Size + 1} {
+			idx := -1
+			if p > 0 {
+				if g := bc.FileSet.File(parser.Pos(p)); g != nil {
+					for i, h := range bc.FileSet.Files {
+						if h == g {
+							idx = i
+						}
+					}
+				}
+				fileof.List = append(fileof.List, L(A(strconv.Itoa(p)), A(strconv.Itoa(idx))))
+			}
+		}
+		files.List = append(files.List, L(hexAtom([]byte(f.Name)), A(strconv.Itoa(f.Base)), A(strconv.Itoa(f.Size)), lines, samples, fileof))
 	}
 	return L(A("traced"), A(name), trace, files)
 }
